@@ -806,13 +806,32 @@ def run(ctx):
                 % (c_ex(log), parse_table(img), i, c_res(out, fmt_inv), c_mems(mems), limit, rej),
                 {'kind': 'inventory', 'image': name, 'id': i, 'limit': limit, 'rej': rej, 'requests': len(log)})
             D.add(('inv', name, i, limit, rej), True, 'inventory id=%s' % ('0' if i == 0 else 'non-zero'))
-            # _read_fru_area alone on each area of well-formed images
+            # each info area of well-formed images alone: through the public get_fru_<area>_area methods, and
+            # (optional fast path, only while the library has it) through the private helper they use
             if ok and rep == 0:
+                public = {'chassis': ('get_fru_chassis_area', 1), 'board': ('get_fru_board_area', 2),
+                          'product': ('get_fru_product_area', 3)}
                 for nm, (o, n) in image_layout(img).items():
-                    if nm == 'multirecord':
+                    if nm not in public:
                         continue
+                    meth, kind = public[nm]
                     dev = FruDevice(mems, limit, rej)
+                    out, log = _run(dev, lambda ipmi: getattr(ipmi, meth)(fru_id=i))
+                    got = ('ok', bytes(getattr(out[1], 'data', b''))) if out[0] == 'ok' else out
+                    add('chk_infoarea %s %d %d %s %s' % (parse_table(img), kind, i, c_ex(log), c_res(got, C.c_hex)),
+                        {'kind': 'info-area', 'image': name, 'area': nm})
+                    res.evaluations += 1
+                    if got[0] != 'ok' or got[1] != img[o:o + n] or any(_req_id(x) != i for x in log):
+                        vkey = '%s:wrong-bytes-or-id' % meth
+                        fails.setdefault(vkey, C.Violation(key=vkey, what='area %s of %s read wrongly' % (nm, name),
+                                                        replay={'oracle': 'inventory', 'input': inp}))
+                    dev = FruDevice(mems, limit, rej)
+                    ipmi0, _ = F.connect(dev)
+                    if not callable(getattr(ipmi0, '_read_fru_area', None)):
+                        continue
                     out, log = _run(dev, lambda ipmi: ipmi._read_fru_area(o, fru_id=i))
+                    if out[0] == 'err' and isinstance(out[1], (TypeError, AttributeError)):
+                        continue          # private helper present but reshaped: not part of any interface
                     add('chk_area (Some %d) %d %s %s' % (o, i, c_ex(log), c_res(out, C.c_hex)),
                         {'kind': 'area', 'image': name, 'area': nm})
                     res.evaluations += 1
@@ -820,7 +839,6 @@ def run(ctx):
                         fails.setdefault('_read_fru_area:wrong-bytes-or-id', C.Violation(
                             key='_read_fru_area:wrong-bytes-or-id', what='area %s of %s read wrongly' % (nm, name),
                             replay={'oracle': 'inventory', 'input': inp}))
-
 
     # ---------------------------------------------------------------- history stage
     good = [im for (_, im, ok) in images if ok and len(im) <= 1200] or [im for (_, im, ok) in images if ok]
